@@ -14,7 +14,12 @@ import SwcVerif.Model.Mst
 import SwcVerif.Model.Views
 import SwcVerif.Model.Images
 import SwcVerif.Model.Features
-import SwcVerif.Model.AlgoRun
+import SwcVerif.Model.AlgoRunDsu
+import SwcVerif.Model.AlgoRunTraverse
+import SwcVerif.Model.AlgoRunSort
+import SwcVerif.Model.AlgoRunSubtree
+import SwcVerif.Model.AlgoRunPopulation
+import SwcVerif.Model.Assemble
 
 def dispatch (op : String) (args : List String) : String :=
   match op with
@@ -40,7 +45,15 @@ def dispatch (op : String) (args : List String) : String :=
   | "views" => Views.handle args
   | "imgaxes" | "imggrid" | "imgedge" => Img.handle op args
   | "feat" => Feat.handle args
-  | "gdsu" | "gtrav" | "gsort" | "ggetdsu" | "glazy" | "gchain" | "gsubtopo" => AlgoRun.handle op args
+  | "gdsu" => AlgoRun.handleDsu args
+  | "ggetdsu" => AlgoRun.handleGetDsu args
+  | "ghascyclic" => AlgoRun.handleHasCyclic args
+  | "gtrav" => AlgoRun.handleTrav args
+  | "gsort" => AlgoRun.handleSort args
+  | "gsubtopo" => AlgoRun.handleSubTopo args
+  | "glazy" => AlgoRun.handleLazy args
+  | "gchain" => AlgoRun.handleChain args
+  | "asm" => Asm.handle args
   | "swcline" => SwcText.handleLine args
   | "swcread" => SwcText.handleRead args
   | "swcwrite" => SwcText.handleWrite args
